@@ -389,6 +389,12 @@ def gen_scenario(rng, max_reqs=3, max_pairs=3, small=False, malformed=False, mix
             sc.resps[-1].form10 = rng.random() < 0.4
             sc.resps[-1].bellenum = rng.random() < 0.5
             uid += 1
+    if malformed and rng.random() < 0.15:
+        # an instruction the base executor has no handler for (RuntimeError "unknown instr type"); for the
+        # bookkeeping model this is just an instruction that raises (a store to a non-existent array)
+        sp = rng.choice(sc.subs)
+        sp.emit("meas_basis Q%d M0 %d %d %d %d" % (sp.rb, rng.randrange(32), rng.randrange(32), rng.randrange(32), 4),
+                {"a": "store", "addr": -1, "idx": 0, "val": 0})
     for sp in sc.subs:
         for req in sp.reqs:
             if not req._waited and not (malformed and rng.random() < 0.5):
@@ -808,6 +814,8 @@ def enc_instr(ins):
         return [m, ins.slice.address.address] + rg(ins.slice.start) + rg(ins.slice.stop)
     if m == "wait_single":
         return [m, ins.entry.address.address] + rg(ins.entry.index)
+    if m == "meas_basis":
+        return [m] + rg(ins.reg0) + rg(ins.reg1) + [ins.imm0.value, ins.imm1.value, ins.imm2.value, ins.imm3.value]
     raise ValueError("harness: no controller-model encoding for " + m)
 
 
